@@ -30,7 +30,8 @@ fn gen_cfg(tier: Tier) -> GenCfg {
     cfg
 }
 
-const KINDS: [(&str, ErrorKind); 9] = [
+const KINDS: [(&str, ErrorKind); 10] = [
+    ("Interrupted", ErrorKind::Interrupted),
     ("NotFound", ErrorKind::NotFound),
     ("PermissionDenied", ErrorKind::PermissionDenied),
     ("Other", ErrorKind::Other),
@@ -63,8 +64,10 @@ impl Property for C11 {
         "generated histories that keep several WAL files alive are run to a clean image (1..6 files); a dry-run open counts \
          the N calls recovery makes to its I/O sites (read_dir, each directory entry, file_type, open of a WAL file, first \
          block read, every later block read); then EXHAUSTIVELY for every n < N x {transient, persistent} the real open runs \
-         with call n failing with a generated io::ErrorKind (Interrupted never; UnexpectedEof never on read sites, where it \
-         means 'short file'). Oracle: open returns Err(ReadRecordError::IoError); the hook's re-entry counter (10 000 \
+         with call n failing with a generated io::ErrorKind (any of 10 kinds incl. Interrupted — injected at the site, before the system call; \
+         UnexpectedEof never on read sites, where it means 'short file'). One image in three is additionally damaged in \
+         place (1..2 aimed frame damages) so that recovery's skip-the-bad-block paths run while the fault is injected (images \
+         that no longer open at all are skipped). Oracle: open returns Err(ReadRecordError::IoError); the hook's re-entry counter (10 000 \
          re-entries of a persistently failing site) never trips. evaluations = faulted opens. non-trivial = the fault hits \
          the open or a read of a non-first WAL file; distinct = hash(history, n, persistence, kind)."
             .to_string()
@@ -105,7 +108,31 @@ impl Property for C11 {
             exec.usable_or_skip(&step)?;
         }
         exec.driver.close()?;
-        let image = Image::from_dir(&dir).map_err(|err| CaseError::Engine(format!("read dir: {err}")))?;
+        let mut image = Image::from_dir(&dir).map_err(|err| CaseError::Engine(format!("read dir: {err}")))?;
+        let mut word_state = case.words.iter().fold(0xC11_u64, |acc, word| acc.rotate_left(5) ^ *word as u64);
+        // One image in three is additionally DAMAGED in place (0..2 aimed damages): recovery then also walks its
+        // skip-the-bad-block paths while the fault is injected. Replays carry the damage list.
+        let replay_damages: Option<Vec<crate::damage::CDamage>> = case.extra.as_ref().and_then(|extra| extra.get("damages")).and_then(|value| serde_json::from_value(value.clone()).ok());
+        let mut damages: Vec<crate::damage::CDamage> = Vec::new();
+        match replay_damages {
+            Some(list) => damages = list,
+            None => {
+                if case.extra.is_none() && splitmix(&mut word_state) % 3 == 0 {
+                    let live = crate::damage::live_frames(&exec.driver.tracer.frames, &image);
+                    for _ in 0..(1 + splitmix(&mut word_state) % 2) {
+                        if live.is_empty() {
+                            break;
+                        }
+                        let frame = &live[(splitmix(&mut word_state) % live.len() as u64) as usize];
+                        damages.push(crate::damage::aimed_damage_in_context(frame, &live, &image, splitmix(&mut word_state)).0);
+                    }
+                }
+            }
+        }
+        for damage in &damages {
+            crate::damage::apply(&mut image, &mut crate::damage::Extras::default(), damage);
+        }
+        let damaged = !damages.is_empty();
         let faulted_dir = env.scratch.fresh("c11-faulted");
         // dry run
         image.materialize(&faulted_dir).map_err(|err| CaseError::Engine(format!("materialize: {err}")))?;
@@ -116,12 +143,15 @@ impl Property for C11 {
         match dry {
             Ok(Ok(log)) => drop(log),
             other => {
+                if damaged {
+                    // a damaged image that cannot be opened at all (Corruption, or a panic that is C10's concern)
+                    return Err(CaseError::Skip("damaged-image-does-not-open".to_string()));
+                }
                 return Err(CaseError::Engine(format!("dry-run open of a clean image failed: {:?}", other.map(|res| res.map(|_| ())))));
             }
         }
         let sites = stats.sites;
-        let history_hash = hash64(&exec.cops);
-        let mut word_state = case.words.iter().fold(0xC11_u64, |acc, word| acc.rotate_left(5) ^ *word as u64);
+        let history_hash = hash64(&(&exec.cops, &damages));
         let replay = case.extra.as_ref().and_then(|extra| extra.get("fault")).cloned();
         let mut seen_first_block = false;
         let mut in_later_file = vec![false; sites.len()];
@@ -171,8 +201,9 @@ impl Property for C11 {
             let fault_stats = verif_hooks::fault_stats();
             verif_hooks::set_fault_plan(None, false);
             let site = sites.get(nth as usize).copied();
-            let extra = json!({"fault": {"nth": nth, "persistent": persistent, "kind": kind}});
-            let what = format!("{} {kind} fault at recovery I/O call #{nth} ({site:?}; image {})", if persistent { "persistent" } else { "transient" }, image.describe());
+            let extra = json!({"fault": {"nth": nth, "persistent": persistent, "kind": kind}, "damages": damages});
+            let what = format!("{} {kind} fault at recovery I/O call #{nth} ({site:?}; image {}{})", if persistent { "persistent" } else { "transient" }, image.describe(),
+                if damaged { format!("; damaged in place: {:?}", damages.iter().map(super::c12::describe_damage).collect::<Vec<_>>()) } else { String::new() });
             if fault_stats.fired == 0 {
                 // the plan was never reached (cannot happen: nth < N of a deterministic open)
                 return Err(CaseError::Engine(format!("{what}: fault was not reached")));
@@ -193,6 +224,9 @@ impl Property for C11 {
                 }
             }
             env.class(&format!("site:{:?}", site.unwrap_or(Site::ReadDir)));
+            if damaged {
+                env.class("fault-on-damaged-image");
+            }
             if in_later_file.get(nth as usize).copied().unwrap_or(false) {
                 env.class("fault-in-non-first-file");
                 env.nontrivial(mix(history_hash, hash64(&(nth, persistent, kind))));
